@@ -108,7 +108,9 @@ Record gst := {
   (* ghost, never read by a step *)
   unl : list unlink_ev;
   creator_failed : bool;    (* a handle that still owned the storage it created lost reserve_port *)
-  saw_marked : bool         (* a remove_state found the byte already MarkedForDestruction *)
+  saw_marked : bool;        (* a remove_state found the byte already MarkedForDestruction *)
+  stolen : list hid         (* ports whose role bit was cleared by a handle other than themselves
+                               (forced removal, or the Drop of a port that had itself been removed) *)
 }.
 
 Inductive op :=
@@ -148,7 +150,7 @@ Definition st_of (g : gst) (i : nat) : N := i_st (get_inc g i).
 
 Definition set_inc (g : gst) (i : nat) (x : inc) : gst :=
   {| cur := cur g; incs := upd (incs g) i x; unl := unl g;
-     creator_failed := creator_failed g; saw_marked := saw_marked g |}.
+     creator_failed := creator_failed g; saw_marked := saw_marked g; stolen := stolen g |}.
 
 Definition holder (x : inc) (r : role) : option hid := match r with RSend => i_hs x | RRecv => i_hr x end.
 Definition set_holder (x : inc) (r : role) (st : N) (v : option hid) : inc :=
@@ -173,12 +175,22 @@ Definition clear_h (l : lst) (k : nat) : lst :=
 Definition set_own (h : handle) (b : bool) : handle :=
   {| h_inc := h_inc h; h_own := b; h_role := h_role h; h_id := h_id h |}.
 
+Definition hid_eqb (a b : hid) : bool := Nat.eqb (fst a) (fst b) && Nat.eqb (snd a) (snd b).
+(* the role bit held by `old` is cleared by handle `me` *)
+Definition steal (g : gst) (old : option hid) (me : hid) : gst :=
+  match old with
+  | Some o => if hid_eqb o me then g
+              else {| cur := cur g; incs := incs g; unl := unl g; creator_failed := creator_failed g;
+                      saw_marked := saw_marked g; stolen := o :: stolen g |}
+  | None => g
+  end.
+
 Definition flag_creator (g : gst) (h : handle) : gst :=
   {| cur := cur g; incs := incs g; unl := unl g;
-     creator_failed := creator_failed g || h_own h; saw_marked := saw_marked g |}.
+     creator_failed := creator_failed g || h_own h; saw_marked := saw_marked g; stolen := stolen g |}.
 Definition flag_marked (g : gst) : gst :=
   {| cur := cur g; incs := incs g; unl := unl g;
-     creator_failed := creator_failed g; saw_marked := true |}.
+     creator_failed := creator_failed g; saw_marked := true; stolen := stolen g |}.
 
 (* reserve_port after observing value c (from the load or from a failed CAS) *)
 Definition reserve_next (g : gst) (l : lst) (h : handle) (p : params) (c : N) (e : ev)
@@ -211,7 +223,7 @@ Definition step (t : nat) (g : gst) (l : lst) : option (gst * lst * list ev) :=
         let i := length (incs g) in
         Some ({| cur := Some i;
                  incs := incs g ++ [{| i_st := 0; i_par := p; i_hs := None; i_hr := None |}];
-                 unl := unl g; creator_failed := creator_failed g; saw_marked := saw_marked g |},
+                 unl := unl g; creator_failed := creator_failed g; saw_marked := saw_marked g; stolen := stolen g |},
               goto l (CrLoad {| h_inc := i; h_own := true; h_role := r; h_id := opi l |} p),
               [EAcc 1 B_MAP 0 KSwap NotAtomic NotAtomic 4 1 true])
       end
@@ -268,7 +280,8 @@ Definition step (t : nat) (g : gst) (l : lst) : option (gst * lst * list ev) :=
       let x' := if N.land c (rbit (h_role h)) =? 0
                 then set_holder x (h_role h) new (holder x (h_role h))
                 else set_holder x (h_role h) new None in
-      let g' := set_inc g (h_inc h) x' in
+      let g' := if N.land c (rbit (h_role h)) =? 0 then set_inc g (h_inc h) x'
+                else steal (set_inc g (h_inc h) x') (holder x (h_role h)) (t, h_id h) in
       let e := EAcc 21 B_STATE (st_loc h) KCas Relaxed Relaxed c new true in
       if new =? MARKED
       then Some (if c =? MARKED then flag_marked g' else g', goto l (Acq h w), [e])
@@ -290,14 +303,14 @@ Definition step (t : nat) (g : gst) (l : lst) : option (gst * lst * list ev) :=
              | None => {| u_t := t; u_hinc := h_inc h; u_rm := None; u_st := 0; u_att := false |}
              end in
     let g' := {| cur := None; incs := incs g; unl := unl g ++ [u];
-                 creator_failed := creator_failed g; saw_marked := saw_marked g |} in
+                 creator_failed := creator_failed g; saw_marked := saw_marked g; stolen := stolen g |} in
     Some (g', finish l None,
           [EAcc 3 B_MAP 0 KSwap NotAtomic NotAtomic (match cur g with Some _ => 2 | None => 1 end) 0 true;
            ret_ev g' (why_code w)])
   end.
 
 Definition g_init : gst :=
-  {| cur := None; incs := []; unl := []; creator_failed := false; saw_marked := false |}.
+  {| cur := None; incs := []; unl := []; creator_failed := false; saw_marked := false; stolen := [] |}.
 Definition l_init (p : list op) : lst := {| prog := p; opi := 0; at_pc := Idle; hs := [] |}.
 Definition init (progs : nat -> list op) : cfg gst lst := (g_init, fun t => l_init (progs t)).
 
